@@ -118,7 +118,7 @@ func C10beaver(p *load.Program, run *report.Run) {
 		return
 	}
 	key := "gmw.Network.andBatchFlush"
-	for _, n := range []int{2, 3, 4} {
+	for _, n := range partyCounts() {
 		run.Count("party-counts", 1)
 		k := fmt.Sprintf("%s/parties=%d", key, n)
 		sum := func(prefix string) gpoly {
